@@ -11,6 +11,8 @@ import JPV.Spec.NormalizedPath
 import JPV.Impl.Serialize
 import JPV.Impl.Api
 import JPV.Impl.Cli
+import JPV.Impl.NonDet
+import JPV.Spec.NonDet
 namespace JPV.Driver
 open JPV.Wire
 
@@ -140,6 +142,19 @@ def runHist (w : Impl.World) : List Impl.Op → List String
   | [] => []
   | op :: ops => let r := w.step op; encOut r.2 :: runHist r.1 ops
 
+def decChoice : Sexp → Option Impl.ND.Choice
+  | .list (.atom "perm" :: xs) => do pure (.perm (← xs.mapM (fun | .atom a => a.toNat? | _ => none)))
+  | .list [.atom "coin", .atom b] => some (.coin (b = "1"))
+  | .list (.atom "merge" :: xs) => do pure (.merge (← xs.mapM (fun | .atom a => some (a = "1") | _ => none)))
+  | _ => none
+
+def decScript : Sexp → Option Impl.ND.Script
+  | .list (.atom "script" :: xs) => xs.mapM decChoice
+  | _ => none
+
+def dedup (xs : List String) : List String :=
+  xs.foldl (fun acc x => if acc.contains x then acc else acc ++ [x]) []
+
 def handle (fields : List String) : String :=
   match fields with
   | ["iter", env, q, doc] =>
@@ -253,6 +268,18 @@ def handle (fields : List String) : String :=
       let r := if stage = "ok" then Impl.Cli.onSuccess else
         Impl.Cli.onException (if stage = "compile" then .compile else .evaluate) exc (debug = "1")
       s!"cli {r.exitCode} {r.stderrLines} {if r.traceback then 1 else 0} {if r.outputWritten then 1 else 0}"
+  | ["nd.find", env, q, doc, script] =>
+      match (readSexp env).bind decEnv, (readSexp q).bind decQuery, decJsonAll doc, (readSexp script).bind decScript with
+      | some e, some q, some d, some sc =>
+        match Impl.ND.find e.toImpl q d sc with
+        | .ok ns => "ok\t" ++ encNodes ns
+        | .error k => "err " ++ encErr k
+      | _, _, _, _ => "bad-request"
+  | ["rfc.outcomes", env, q, doc] =>
+      match (readSexp env).bind decEnv, (readSexp q).bind decQuery, decJsonAll doc with
+      | some e, some q, some d =>
+        "outcomes\t" ++ "\t".intercalate (dedup ((Spec.ND.outcomes e.toSpec q d).map encNodes))
+      | _, _, _ => "bad-request"
   | ["echo.json", doc] =>
       match decJsonAll doc with
       | some d => encJson d
